@@ -89,6 +89,56 @@ Proof.
     cbn [fst v_preview]. rewrite app_nil_r. split; [reflexivity|]. split; [exact Ec | reflexivity].
 Qed.
 
+(** ---- the same call in ANY state, full-shape conversion on or off: what is delivered is the shape formatter's
+    image of the preview reported just before (ShapeFormatter::Format: the identity with the option off) ---- *)
+Theorem commit_any_shape s :
+  let v := fst (view_of cfg s) in
+  let r := exec cfg translate s OpCommit in
+  st_commit (fst r) = st_commit s ++ (if is_composing (st_ctx s) then format_text (st_ctx s) (v_preview v) else []) /\
+  is_composing (st_ctx (fst r)) = false.
+Proof.
+  cbn [exec fst snd]. unfold view_of.
+  destruct (is_composing (st_ctx s)) eqn:Ec.
+  - destruct (commit_composing s Ec) as (C1 & C2). rewrite C1, C2.
+    destruct (ctx_commit_text (st_ctx s)) as [text ok] eqn:Et. destruct (menu_view cfg (st_ctx s)) as [mv ok3].
+    cbn [fst v_preview]. split; reflexivity.
+  - unfold commit. rewrite Ec. cbn [negb fst].
+    destruct (ctx_commit_text (st_ctx s)) as [text ok] eqn:Et. destruct (menu_view cfg (st_ctx s)) as [mv ok3].
+    rewrite app_nil_r. split; [reflexivity | exact Ec].
+Qed.
+
+(** ---- what the shape formatter does to a text: nothing unless it holds a printable ASCII byte (0x20 .. 0x7e), and
+    then every such byte becomes its three-byte full-width form (U+3000 for the space, U+FF01 + (b - 0x21) otherwise)
+    while every other byte - all of multi-byte UTF-8 - is kept: Chinese text is delivered as previewed in either mode ---- *)
+Lemma flat_map_shape_wide_outside t : forallb shape_outside t = true -> flat_map shape_wide t = t.
+Proof.
+  induction t as [|b t IH]; [reflexivity|]. cbn [forallb flat_map]. intros H. apply andb_true_iff in H. destruct H as [Hb Ht].
+  rewrite (IH Ht). unfold shape_wide, shape_outside in *.
+  destruct (N.eqb_spec (N_of_byte b) 32) as [E|E]; [rewrite E in Hb; discriminate Hb|].
+  destruct (N.ltb_spec 32 (N_of_byte b)) as [L1|L1]; destruct (N.leb_spec (N_of_byte b) 126) as [L2|L2]; cbn [andb]; try reflexivity.
+  exfalso. apply orb_true_iff in Hb. destruct Hb as [Hb|Hb]; [apply N.ltb_lt in Hb | apply N.ltb_lt in Hb]; lia.
+Qed.
+Theorem format_text_no_ascii c t : forallb shape_outside t = true -> format_text c t = t.
+Proof. intros H. unfold format_text. rewrite H. destruct (negb (get_option c opt_full_shape)); reflexivity. Qed.
+Theorem format_text_length c t :
+  length (format_text c t) = length t \/
+  (get_option c opt_full_shape = true /\
+   length (format_text c t) = length t + 2 * length (filter (fun b => negb (shape_outside b)) t)).
+Proof.
+  unfold format_text. destruct (get_option c opt_full_shape); cbn [negb]; [|left; reflexivity].
+  destruct (forallb shape_outside t); [left; reflexivity|]. right. split; [reflexivity|].
+  induction t as [|b t IH]; [reflexivity|]. cbn [flat_map filter]. rewrite app_length, IH.
+  unfold shape_wide, shape_outside.
+  destruct (N.eqb_spec (N_of_byte b) 32) as [E|E].
+  - rewrite E. cbn. lia.
+  - destruct (N.ltb_spec 32 (N_of_byte b)) as [L1|L1]; destruct (N.leb_spec (N_of_byte b) 126) as [L2|L2]; cbn [andb].
+    + replace (N_of_byte b <? 32)%N with false by (symmetry; apply N.ltb_ge; lia).
+      replace (126 <? N_of_byte b)%N with false by (symmetry; apply N.ltb_ge; lia). cbn. lia.
+    + replace (126 <? N_of_byte b)%N with true by (symmetry; apply N.ltb_lt; lia). rewrite orb_true_r. cbn. lia.
+    + replace (N_of_byte b <? 32)%N with true by (symmetry; apply N.ltb_lt; lia). cbn. lia.
+    + replace (126 <? N_of_byte b)%N with true by (symmetry; apply N.ltb_lt; lia). rewrite orb_true_r. cbn. lia.
+Qed.
+
 (** ---- C03 (2): selecting a displayed candidate that covers the rest of the input ---- *)
 (** after Segment::Close the segment ends at min (candidate end, segment end) *)
 Definition covers_rest (c : context) (g : segment) (cd : cand) : Prop :=
